@@ -1200,6 +1200,18 @@ class Ceremony:
             put_tx()
             om = [kv for kv in pm["outputs"][ch_pos] if kv[0][:1] not in (b"\x00", b"\x01")]
             pm["outputs"][ch_pos] = [(b"\x00", red), (b"\x01", ws_c)] + om
+        elif kind == "nested_foreign_program_change":
+            # the change output pays to p2sh of a GENUINE p2wsh program -- of somebody else's script; that program is attached as the
+            # RedeemScript (it does hash to the scriptPubKey), and the wallet's genuine change witness script and derivations are kept
+            if ch_pos is None or s.n < 2:
+                return None
+            ws_c = tm.multisig_script(s.m, s.change["pks"])
+            foreign = [tm.multisig_script(1, evil[:1]), b"\x51", tm.multisig_script(s.m, evil[: s.n]) if len(evil) >= s.n else b"\x51"][a % 3]
+            red = b"\x00\x20" + tm.sha256(foreign)
+            tx["outs"][ch_pos]["spk"] = tm.spk_p2sh(tm.hash160(red))
+            put_tx()
+            om = [kv for kv in pm["outputs"][ch_pos] if kv[0][:1] not in (b"\x00", b"\x01")]
+            pm["outputs"][ch_pos] = [(b"\x00", red), (b"\x01", ws_c)] + om
         elif kind == "lookalike_template_input":
             # an input whose genuine previous transaction pays to a script that only looks like the wallet's p2sh / p2wsh output (hash
             # pushed non-minimally): the attached script does not lock that output
@@ -1515,7 +1527,7 @@ def execute(plan, prop, trace):
 
 # ------------------------------------------------------------------------------------------------ generation
 
-TAMPER_KINDS = ["lookalike_witness_program_change", "lookalike_witness_program_change", "lookalike_template_input", "foreign_script_on_spend_output", "foreign_script_on_spend_output", "malformed_multisig_change", "malformed_multisig_change", "foreign_redeem_on_p2wsh_input", "weak_quorum_dust_input", "weak_quorum_dust_input", "swap_change_spk", "flip_change_spk_byte", "foreign_script", "foreign_fingerprint", "wrong_path", "one_cosigner_keys", "one_cosigner_keys_spoofed_fps", "utxo_amount", "other_prev_tx", "changed_quorum", "second_change",
+TAMPER_KINDS = ["nested_foreign_program_change", "nested_foreign_program_change", "lookalike_witness_program_change", "lookalike_witness_program_change", "lookalike_template_input", "foreign_script_on_spend_output", "foreign_script_on_spend_output", "malformed_multisig_change", "malformed_multisig_change", "foreign_redeem_on_p2wsh_input", "weak_quorum_dust_input", "weak_quorum_dust_input", "swap_change_spk", "flip_change_spk_byte", "foreign_script", "foreign_fingerprint", "wrong_path", "one_cosigner_keys", "one_cosigner_keys_spoofed_fps", "utxo_amount", "other_prev_tx", "changed_quorum", "second_change",
                 "redeem_for_other_input", "forge_change", "forge_change", "forge_change", "nonwitness_utxo_foreign_script", "both_utxo_records_disagree", "swap_change_spk_type", "swap_change_spk_type", "p2sh_input_as_witness_utxo", "weak_redeem_both_records_p2sh_input", "weak_redeem_both_records_p2sh_input"]
 
 
@@ -1703,7 +1715,7 @@ def enumerate_plans(tier, prop, seed):
         # the catalogue against both wallet types
         for kind in ("p2sh", "p2wsh"):
             for tk in [None] + TAMPER_KINDS:
-                for rep in range((1 if tier == "quick" else 4) * (3 if tk == "weak_quorum_dust_input" else 5 if tk == "malformed_multisig_change" else 3 if tk == "lookalike_witness_program_change" else 4 if tk == "foreign_script_on_spend_output" else 2 if tk == "foreign_redeem_on_p2wsh_input" else 3 if tk == "weak_redeem_both_records_p2sh_input" else 1)):
+                for rep in range((1 if tier == "quick" else 4) * (3 if tk == "weak_quorum_dust_input" else 5 if tk == "malformed_multisig_change" else 3 if tk in ("lookalike_witness_program_change", "nested_foreign_program_change") else 4 if tk == "foreign_script_on_spend_output" else 2 if tk == "foreign_redeem_on_p2wsh_input" else 3 if tk == "weak_redeem_both_records_p2sh_input" else 1)):
                     plan = base(kind, r.choice([1, 2]) if tk != "weak_quorum_dust_input" else 2, 2 if tier == "quick" else r.choice([2, 3]))
                     plan["creator"] = {"segwit_flag": False, "xpubs": rep % 2 == 1, "unknown": False, "helper": kind == "p2sh" and rep % 2 == 0}
                     plan["sign_method"] = "keys"
